@@ -106,6 +106,14 @@ class Prop(BaseProp):
                           for k in range(rng.randint(1, 4))]
                 it.leaderless = True
                 res.count("leaderless_docs")
+        # doccomments on implementing definitions (the first definition after a member/test declaration): whatever entry
+        # they get, their text must not be lost
+        doc_impls = []
+        if rng.random() < 0.3:
+            for it in mod.walk():
+                if it.impl is not None and it.impl.doc is None and rng.random() < 0.5:
+                    it.impl.doc = mkdoc(rng, it.impl.uid) or [f"{{L{it.impl.uid}.0}} implementation text"]
+                    doc_impls.append(it.impl)
         lay = Layout(rng, comments=rng.choice([0.0, 0.2]), wild=rng.choice([0.0, 0.5, 0.9]), case="random")
         if mod.module_doc is not None:
             lay_ind = rng.choice(["", "", " ", "  ", "\t", "    "])
@@ -131,7 +139,7 @@ class Prop(BaseProp):
         rst = o.value
         wit["rst"] = rst
         nv = len(res.violations)
-        self.check_page(res, mod, exp, rst)
+        self.check_page(res, mod, exp, rst, doc_impls)
         # sample through the real command line with -o, file read back as UTF-8
         if idx % 150 == 0:
             with runner.sandbox() as sb:
@@ -159,7 +167,7 @@ class Prop(BaseProp):
             res.sample = {"text": text[:1200], "rst": rst[:1200]}
         return res
 
-    def check_page(self, res, mod, exp, rst):
+    def check_page(self, res, mod, exp, rst, doc_impls=()):
         # notes/warnings are not treated as containers here: an indented first doc line directly after one
         # is still text of the entry, which is all C01 speaks about
         page = rstscan.Page(rst, rstscan.ENTRY_ONLY)
@@ -194,6 +202,16 @@ class Prop(BaseProp):
                         res.violate(f"entry-missing:{m_.kind}", f"no member entry for '{m_.name}'", None)
                         continue
                     ledger(m_, c, 1)
+        # documented implementing definitions: an entry named after the definition carries the text
+        for im in doc_impls:
+            cands = [n for n in page.entries() if n.name == "function" and n.arg.startswith(im.gt["name"] + "(")]
+            res.count("documented_implementations_checked")
+            if len(cands) != 1:
+                res.violate("doc-of-implementing-definition-lost", f"{len(cands)} entries for documented definition "
+                            f"{im.gt['name']!r} (its doccomment has {len(im.doc)} lines)", None)
+                continue
+            ie = Entry("function", im, im.gt["name"])
+            ledger(ie, cands[0], 0)
         # module doc
         if mod.module_doc is not None:
             mods = page.modules()
